@@ -267,13 +267,14 @@ def is_async_call(func):
 # other_params: None means cannot be called with keyword arguments only
 # any means any name is good
 SignatureInfo = namedtuple('SignatureInfo', 'min_args max_args '
-                           'required_names other_names')
+                           'required_names other_names required_kwonly')
 
 
 def signature_info(func):
     params = inspect.signature(func).parameters
     min_args = max_args = 0
     required_names = []
+    required_kwonly = []
     other_names = []
     no_names = False
     for p in params.values():
@@ -285,7 +286,12 @@ def signature_info(func):
             else:
                 other_names.append(p.name)
         elif p.kind == p.KEYWORD_ONLY:
-            other_names.append(p.name)
+            if p.default is p.empty:
+                # Can only be passed by name, and must be
+                required_names.append(p.name)
+                required_kwonly.append(p.name)
+            else:
+                other_names.append(p.name)
         elif p.kind == p.VAR_POSITIONAL:
             max_args = None
         elif p.kind == p.VAR_KEYWORD:
@@ -299,4 +305,4 @@ def signature_info(func):
     if no_names:
         other_names = None
 
-    return SignatureInfo(min_args, max_args, required_names, other_names)
+    return SignatureInfo(min_args, max_args, required_names, other_names, required_kwonly)
